@@ -1,6 +1,7 @@
 from abc import abstractmethod
 from typing import Any, Hashable, Sequence
 
+import numpy as np
 from numpy.random import Generator
 from typing_extensions import Self
 
@@ -550,10 +551,14 @@ class BaseModelCrossSet(BaseModel):
 
     def _check_valid_sample_positions(self, X: DataArray, Y: DataArray) -> None:
         """Refuse fields whose fully missing samples sit at different positions."""
+        if not (self.preprocessor1.check_nans or self.preprocessor2.check_nans):
+            return
         masks = []
         for prep, data in zip([self.preprocessor1, self.preprocessor2], [X, Y]):
             if not prep.check_nans:
-                return
+                # nothing was removed from this field
+                masks.append(np.ones(data[self.sample_name].size, dtype=bool))
+                continue
             all_samples = prep.sanitizer.transformers[0].sample_coords.to_index()
             masks.append(all_samples.isin(data[self.sample_name].to_index()))
         if masks[0].size != masks[1].size:
